@@ -32,7 +32,7 @@ def case_class(c):
     if g == 'occ':
         return 'min=%s,max=%s,count=%s' % (c['mino'], c['maxo'], c['count'])
     if g == 'nil':
-        return '%s,nillable=%s,min=%s,%s' % (c['ty'], c['nillable'], c['mino'], c['how'])
+        return '%s,nillable=%s,min=%s,%s%s' % (c['ty'], c['nillable'], c['mino'], c['how'], ',default' if c.get('dflt') else '')
     if g == 'date':
         return '%s|delta=%s|off=%s' % (c['facet'], c['delta'], c['off'])
     if g == 'lex':
@@ -108,7 +108,7 @@ def run(ctx):
     fails = judge(ctx, recs)
     n = 0
     for i, cl in sorted(fails.items()):
-        cl = cl - {'SchemaDisagrees'}
+        cl = cl - {'SchemaDisagrees', 'ValidatorsDisagree'}
         if not cl:
             continue
         n += 1
